@@ -34,6 +34,9 @@ Definition run_C05 (i : term) : term :=
         let tr := new_trimmed_text o pr in
         TL ([TS "ok"; TZ (legend_of tr); TZ (pr_total pr)] ++ legend_extras (pr_total pr) tr false ++
             [TL (map (fun it => TL [TS (with_inl (ti_name it) (ti_inl it)); TZ (ti_flat it); TZ (ti_cum it)]) (text_items (t_g tr)))])
+      else if String.eqb form "webtop" then
+        let tr := new_trimmed_text o pr in
+        TL [TS "ok"; TZ (pr_total pr); TZ (legend_of tr); TL (map of_item (text_items (t_g tr)))]
       else if String.eqb form "tree" then
         let tr := new_trimmed_text o pr in
         TL ([TS "ok"; TZ (legend_of tr); TZ (pr_total pr)] ++ legend_extras (pr_total pr) tr false ++
@@ -89,18 +92,18 @@ Definition names_match (exp : list (node_info * nval)) (rows : list term) : bool
           (combine exp rows).
 
 Definition edge_row_ok_kept (shown : list node_info) (ss : list (gsample node_info)) (a b : string) (w : Z) : bool :=
-  edge_row_ok ss a b w ||
-  existsb (fun ka => String.eqb (printable_name ka) a &&
-     existsb (fun kb => String.eqb (printable_name kb) b &&
+  if edge_row_ok ss a b w then true else
+  existsb (fun ka => if String.eqb (printable_name ka) a then
+     existsb (fun kb => if String.eqb (printable_name kb) b then
         (mean_value (wrap_i64 (edge_spec node_info ni_eqb false (Some shown) ss ka kb))
-                    (wrap_i64 (edge_spec node_info ni_eqb true (Some shown) ss ka kb)) =? w)) shown) shown.
+                    (wrap_i64 (edge_spec node_info ni_eqb true (Some shown) ss ka kb)) =? w) else false) shown else false) shown.
 
 Definition spec_C05 (i ob : term) : bool :=
   let '(o, (si, pr)) := c04_prepare i in
   let form := gs (gn i 2) in
   match si with
   | SiOk ix =>
-      let ss := report_samples o pr in
+      let ss := report_samples o (rebuild o pr) in
       if negb (String.eqb (gs (gn ob 0)) "ok") then false
       else if String.eqb form "tgraph" then
         let g := mk_graph (g_nodes (igraph_of (gn ob 4) (gn ob 5))) (g_edges (igraph_of (gn ob 4) (gn ob 5))) in
@@ -113,6 +116,9 @@ Definition spec_C05 (i ob : term) : bool :=
       else if String.eqb form "top" then
         let rows := gl (gn ob 7) in
         names_match (expected_shown o ss) rows && (gz (gn ob 1) =? rows_sum rows 1)
+      else if String.eqb form "webtop" then
+        let rows := map (fun r => TL [gn r 0; gn r 2; gn r 3]) (gl (gn ob 3)) in
+        names_match (expected_shown o ss) rows && (gz (gn ob 2) =? rows_sum rows 1)
       else if String.eqb form "tree" then
         let blocks := gl (gn ob 7) in
         let exp := expected_shown o ss in
@@ -134,6 +140,13 @@ Definition spec_C05 (i ob : term) : bool :=
   | _ => String.eqb (gs (gn ob 0)) "err"
   end.
 
-Definition cls_C05 (i : term) : list Z := [].
+(* class 40 = F40: the report's path clean-up (trimPath, applied on every graph build) does not
+   reach a fixed point after one application on some file name of the profile *)
+Definition cls_C05 (i : term) : list Z :=
+  let '(o, (si, pr)) := c04_prepare i in
+  match si with
+  | SiOk _ => if paths_stable o pr then [] else [40]
+  | _ => []
+  end.
 
 Definition judge_C05 := judge_all run_C05 eqv_C05 spec_C05 cls_C05 0%Z.
